@@ -39,6 +39,14 @@ CLAIMED = {
         note="Holds for every call history because the rules quantify over all paths of every mutator. Value-level equality with a directly constructed TwoParticleGF additionally needs C02 and is not decided here.",
         technique="constant-table evaluation + key-permutation matching + paired-state effect rule over clang AST/CFG (templates analysed through explicit instantiation)",
         ref="DESIGN.md §3 C13"),
+    "C07": dict(
+        text="Static analysis of the symmetry analysis: (R1) on every CFG path through the classification loop each Fock state gets exactly one StateBlockIndex entry and one StatesContainer entry with the same block, new blocks "
+             "are registered in both maps before the counter advances; (R2) (block, position) addresses round-trip; (R3) an integral of motion is stored only after it commuted with H and with every n_i (full loop, failing edge "
+             "returns false); (R4) every throw reachable from Symmetrizer::compute / StatesClassification::compute is excluded at its call site (exception summaries, parameter substitution, entailment); (R5) the three "
+             "FieldOperator::prepare siblings build parts and block maps identically.",
+        note="Necessary conditions only: that accepted integrals of motion make H block diagonal and operators single-target is a value-level fact and is not decided; two hazards (mapsTo first-state rule, hash-compared quantum numbers) are documented, not armed. Virtual calls summarised through the static callee.",
+        technique="CFG path enumeration with pairing rule + exception summaries discharged by branch-fact entailment + sibling-structure comparison",
+        ref="DESIGN.md §3 C07"),
 }
 
 NOT_YET = {}
